@@ -16,6 +16,7 @@
    output: args_size ncache cache... enc_ok [nbytes bytes... dec_ok consumed] reserved *)
 From Coq Require Import List NArith Arith Bool.
 From Quill Require Import Base.Bytes Codec.CodecDefs.
+From QuillGen Require SrcFacts.
 Import ListNotations.
 Local Open Scope N_scope.
 
@@ -144,7 +145,8 @@ Definition codec_run_enc (l : list N) : list N :=
             | None => [0; reserved]
             | Some (bs, _) =>
               1 :: lenN bs :: (if showb =? 0 then [] else bs) ++
-              match args_decode (fun _ xs => xs) true ts base bs with
+              (* the tuple decoder of the source tree (T-src, tools/srcfacts.py c04t_facts; TieC04.src_disp) *)
+              match args_decode (fun _ xs => xs) (negb (SrcFacts.codec_tuple_decode_shape =? 1)) ts base bs with
               | None => [0; 0; reserved]
               | Some (_, rest) => [1; lenN bs - lenN rest; reserved]
               end
